@@ -74,13 +74,13 @@ package corebgp
 //@ pure segChain(b, offs, n, pos) = (n == 0 ? pos == 0 : offs[0] == 0 && pos == segNext(b, offs[n-1])) && (forall k :: 0 <= k && k < n - 1 ==> offs[k+1] == segNext(b, offs[k]))
 
 // ---- peer manager / FSM ghost state ----
-//@ ghostfield fsmRunning bool
-//@ ghostfield peerRunning bool
+//@ ghostfield fsmRunning bool of fsm
+//@ ghostfield peerRunning bool of peer
 //@ joins fsm.doneCh fsmRunning
 //@ joins peer.doneCh peerRunning
 // FSM states: 0 disabled, 1 idle, 2 connect, 3 active, 4 openSent, 5 openConfirm, 6 established
 //@ pure fsmObj(f, p) = f != nil && f.peer == p && f.closeCh != nil && f.doneCh != nil && f.idleHoldTimer != nil && (chanClosed(f.closeCh) == onceDone(f.closeOnce)) && allocated(f.closeCh)
-//@ pure slotInv(p, i) = (p.fsms[i] == nil ==> p.fsmState[i] == 0) && (p.fsms[i] != nil ==> fsmObj(p.fsms[i], p) && fsmRunning(p.fsms[i]) && !chanClosed(p.fsms[i].closeCh) && allocated(p.fsms[i]) && p.fsms[i].closeCh != p.doneCh) && p.fsmState[i] <= 6 && p.transitionCh[i] != nil && p.errorCh[i] != nil
+//@ pure slotInv(p, i) = (p.fsms[i] == nil ==> p.fsmState[i] == 0) && (p.fsms[i] != nil ==> fsmObj(p.fsms[i], p) && p.fsms[i].index == i && fsmRunning(p.fsms[i]) && !chanClosed(p.fsms[i].closeCh) && allocated(p.fsms[i]) && p.fsms[i].closeCh != p.doneCh) && p.fsmState[i] <= 6 && p.transitionCh[i] != nil && p.errorCh[i] != nil
 //@ pure peerInvCore(p) = p != nil && p.startupDelayTimer != nil && p.inConnCh != nil && p.closeCh != nil && p.doneCh != nil && slotInv(p, 0) && slotInv(p, 1) && !(p.fsmState[0] == 6 && p.fsmState[1] == 6) && (p.fsms[0] == nil || p.fsms[0] != p.fsms[1]) && (p.fsms[0] != nil && p.fsms[1] != nil ==> p.fsms[0].closeCh != p.fsms[1].closeCh) && (p.startupDelay == 0 || (60000000000 <= p.startupDelay && p.startupDelay <= 300000000000)) && (p.options.passive ==> p.fsms[0] == nil)
 //@ pure peerInv(p) = p != nil && p.startupDelayTimer != nil && p.inConnCh != nil && p.closeCh != nil && p.doneCh != nil && slotInv(p, 0) && slotInv(p, 1) && !(p.fsmState[0] == 6 && p.fsmState[1] == 6) && (p.fsms[0] == nil || p.fsms[0] != p.fsms[1]) && (p.fsms[0] != nil && p.fsms[1] != nil ==> p.fsms[0].closeCh != p.fsms[1].closeCh) && (p.startupDelay == 0 || (60000000000 <= p.startupDelay && p.startupDelay <= 300000000000)) && (p.inHoldDown ==> p.fsms[0] == nil && p.fsms[1] == nil) && (p.options.passive ==> p.fsms[0] == nil)
 // what the FSM goroutines send to the manager (rely, DESIGN appendix E.3): states in range and
@@ -92,13 +92,13 @@ package corebgp
 //@ pure encCapOK(v, o, cap) = 0 <= o && o + 2 + len(cap.Value) <= len(v) && v[o] == cap.Code && v[o+1] == len(cap.Value) && (forall i :: 0 <= i && i < len(cap.Value) ==> v[o+2+i] == cap.Value[i])
 
 // ---- FSM goroutine ghost state ----
-//@ ghostfield readerRunning bool
-//@ ghostfield dialPending bool
+//@ ghostfield readerRunning bool of fsm
+//@ ghostfield dialPending bool of fsm
 //@ joins fsm.readerDoneCh readerRunning
 //@ joins fsm.dialResultCh dialPending
 //@ delivers fsm.dialResultCh
 // the FSM object as its own goroutine sees it (immutable parts + plugin present)
-//@ pure fsmSelf(f) = f != nil && f.peer != nil && f.peer.plugin != nil && f.closeCh != nil && f.doneCh != nil && f.idleHoldTimer != nil && f.peer.transitionCh[0] != nil && f.peer.transitionCh[1] != nil && f.peer.errorCh[0] != nil && f.peer.errorCh[1] != nil && (f.peer.options.holdTime == 0 || f.peer.options.holdTime >= 3000000000) && f.peer.options.holdTime <= 65535000000000 && f.peer.options.holdTime % 1000000000 == 0
+//@ pure fsmSelf(f) = f != nil && (f.index == 0 || f.index == 1) && f.peer != nil && f.peer.plugin != nil && f.closeCh != nil && f.doneCh != nil && f.idleHoldTimer != nil && f.peer.transitionCh[0] != nil && f.peer.transitionCh[1] != nil && f.peer.errorCh[0] != nil && f.peer.errorCh[1] != nil && (f.peer.options.holdTime == 0 || f.peer.options.holdTime >= 3000000000) && f.peer.options.holdTime <= 65535000000000 && f.peer.options.holdTime % 1000000000 == 0
 // a live connection with its reader
 //@ pure connUp(f) = f.conn != nil && !connClosed(f.conn) && readerRunning(f) && f.readerMsgCh != nil && f.readerErrCh != nil && f.readerDoneCh != nil && f.closeReaderCh != nil && (chanClosed(f.closeReaderCh) == onceDone(f.closeReaderOnce))
 //@ pure lastNotif(c, code, sub) = lastKind(c) == 3 && lastCode(c) == code && lastSub(c) == sub
@@ -110,3 +110,12 @@ package corebgp
 //@ pure errWellFormed(e) = hasType(e, *notificationError) ==> firstOf(e, *notificationError) != nil && firstOf(e, *notificationError).notification != nil && len(firstOf(e, *notificationError).notification.Data) <= 4075
 //@ chaninv fsm.readerErrCh(e) = e != nil && errWellFormed(e) && (hasType(e, *notificationError) ==> firstOf(e, *notificationError).out)
 //@ pure errCarries(e, n, out) = hasType(e, *notificationError) && firstOf(e, *notificationError) != nil && firstOf(e, *notificationError).notification == n && firstOf(e, *notificationError).out == out
+// hold/keepalive timers of a session in OpenConfirm / Established (C06)
+//@ pure sessionTimers(f) = f.holdTimer != nil && f.keepAliveTimer != nil && f.holdTimer != f.keepAliveTimer && (f.holdTime != 0 ==> f.holdTime >= 3000000000 && f.keepAliveInterval == f.holdTime / 3 && timerOn(f.holdTimer) && timerDur(f.holdTimer) == f.holdTime && timerOn(f.keepAliveTimer) && timerDur(f.keepAliveTimer) == f.keepAliveInterval) && (f.holdTime == 0 ==> !timerOn(f.holdTimer) && !timerMayHold(f.holdTimer) && !timerOn(f.keepAliveTimer) && !timerMayHold(f.keepAliveTimer))
+// in Established the keepalive timer is handed to the keepalive-manager goroutine:
+// this goroutine only relies on it staying silent when the hold time is zero
+//@ pure estTimers(f) = f.holdTimer != nil && f.keepAliveTimer != nil && f.holdTimer != f.keepAliveTimer && (f.holdTime != 0 ==> f.holdTime >= 3000000000 && timerOn(f.holdTimer) && timerDur(f.holdTimer) == f.holdTime) && (f.holdTime == 0 ==> !timerOn(f.holdTimer) && !timerMayHold(f.holdTimer) && !timerOn(f.keepAliveTimer) && !timerMayHold(f.keepAliveTimer))
+// the FSM side of the manager rendezvous: what the FSM sends satisfies what the
+// manager relies on (peer.transitionCh / peer.errorCh invariants)
+//@ chaninv getFSMTransitionCh(v) = v.to <= 6 && v.from <= 6 && (v.to == 5 ==> v.from == 4)
+//@ chaninv getFSMErrorCh(e) = e != nil && (hasType(e, *notificationError) ==> firstOf(e, *notificationError) != nil && firstOf(e, *notificationError).notification != nil)
